@@ -3,6 +3,7 @@ package props
 import (
 	"bytes"
 	"fmt"
+	compact_time "github.com/kstenerud/go-compact-time"
 	"math"
 	"runtime"
 	"strings"
@@ -82,6 +83,9 @@ type c08Family struct {
 	build   func(n int, h []byte) []byte // document for size parameter n
 	maxN    int
 	timing  bool // included in the time-linearity sweep
+	// perByte overrides c08PerByte for a family whose cost per input byte is known to be high but constant
+	// (measured and explained where it is set); the scaling oracles apply to it like to any other family
+	perByte int
 }
 
 func rep(s string, n int) string { return strings.Repeat(s, n) }
@@ -251,7 +255,7 @@ var c08Families = func() []c08Family {
 			return []byte("c0\n//" + rep("x", n) + "\n1")
 		}},
 		{name: "cte-media-hex", format: "cte", timing: true, maxN: 1 << 17, build: func(n int, _ []byte) []byte {
-			return []byte("c0\n@application/x[" + rep("0a ", n) + "]")
+			return []byte("c0\n@application/x[" + strings.TrimSpace(rep("0a ", n)) + "]")
 		}},
 		{name: "cte-escapes-in-one-string", format: "cte", timing: true, maxN: 1 << 17, build: func(n int, _ []byte) []byte {
 			return []byte("c0\n\"" + rep("a\\n", n) + "\"")
@@ -301,6 +305,105 @@ var c08Families = func() []c08Family {
 				out = append(out, 0x84, 'k', byte('a'+i%26), byte('a'+(i/26)%26), byte('a'+(i/676)%26), 0x9a, 0x01, 0x9b)
 			}
 			return cbeDoc(out, []byte{0x81, 'a', 0x01, 0x9b})
+		}},
+		// --- more CTE token kinds, one family each
+		{name: "cte-many-records", format: "cte", timing: true, maxN: 1 << 14, build: func(n int, _ []byte) []byte {
+			return []byte("c0\n@r<1 2>\n[" + rep("@r{1 2} ", n) + "]")
+		}},
+		{name: "cte-many-edges", format: "cte", timing: true, maxN: 1 << 14, build: func(n int, _ []byte) []byte {
+			return []byte("c0\n[" + rep("@(1 2 3) ", n) + "]")
+		}},
+		{name: "cte-nested-edges", format: "cte", timing: true, maxN: 1 << 12, build: func(n int, _ []byte) []byte {
+			return []byte("c0\n" + rep("@(", n) + "1" + rep(" 2 3)", n))
+		}},
+		{name: "cte-many-nodes", format: "cte", timing: true, maxN: 1 << 14, build: func(n int, _ []byte) []byte {
+			return []byte("c0\n[" + rep("(1 2) ", n) + "]")
+		}},
+		{name: "cte-many-times", format: "cte", timing: true, maxN: 1 << 14, build: func(n int, _ []byte) []byte {
+			return []byte("c0\n[" + rep("2020-01-15/10:30:00.5/Europe/Berlin ", n) + "]")
+		}},
+		{name: "cte-many-uids", format: "cte", timing: true, maxN: 1 << 14, build: func(n int, _ []byte) []byte {
+			return []byte("c0\n[" + rep("f81d4fae-7dec-11d0-a765-00a0c91e6bf6 ", n) + "]")
+		}},
+		{name: "cte-many-floats", format: "cte", timing: true, maxN: 1 << 15, build: func(n int, _ []byte) []byte {
+			return []byte("c0\n[" + rep("1.5e10 0x1.8p3 ", n) + "]")
+		}},
+		{name: "cte-many-references", format: "cte", timing: true, maxN: 1 << 14, build: func(n int, _ []byte) []byte {
+			return []byte("c0\n[&a:1 " + rep("$a ", n) + "]")
+		}},
+		{name: "cte-many-resource-ids", format: "cte", timing: true, maxN: 1 << 14, build: func(n int, _ []byte) []byte {
+			return []byte("c0\n[" + rep("@\"http://x.y/z\" ", n) + "]")
+		}},
+		{name: "cte-many-custom-text", format: "cte", timing: true, maxN: 1 << 13, build: func(n int, _ []byte) []byte {
+			return []byte("c0\n[" + rep("@5\"ab\" ", n) + "]")
+		}},
+		{name: "cte-many-verbatim", format: "cte", timing: true, maxN: 1 << 13, build: func(n int, _ []byte) []byte {
+			return []byte("c0\n[" + rep("\"\\.ZZ a\\bZZ\" ", n) + "]")
+		}},
+		{name: "cte-long-verbatim", format: "cte", timing: true, maxN: 1 << 18, build: func(n int, _ []byte) []byte {
+			return []byte("c0\n\"\\.ZZ " + rep("a\\b", n) + "ZZ\"")
+		}},
+		{name: "cte-long-verbatim-sentinel", format: "cte", timing: true, maxN: 1 << 14, build: func(n int, _ []byte) []byte {
+			return []byte("c0\n\"\\." + rep("Z", n) + " abc" + rep("Z", n) + "\"")
+		}},
+		{name: "cte-long-decimal-coefficient", format: "cte", timing: true, maxN: 1 << 12, build: func(n int, _ []byte) []byte {
+			return []byte("c0\n1." + rep("7", n) + "e5")
+		}},
+		{name: "cte-long-multiline-comment", format: "cte", timing: true, maxN: 1 << 19, build: func(n int, _ []byte) []byte {
+			return []byte("c0\n/*" + rep("x\n", n) + "*/1")
+		}},
+		{name: "cte-many-null-bool", format: "cte", timing: true, maxN: 1 << 15, build: func(n int, _ []byte) []byte {
+			return []byte("c0\n[" + rep("null true false ", n) + "]")
+		}},
+		// every record type definition costs ANTLR one full-context prediction (272 KB allocated, 4 ms) because
+		// "another record type or the top-level value" cannot be told apart with the local context: 30 KB per
+		// input byte, but the same 30 KB at every size - a (large) fixed multiple, hence its own allowance
+		{name: "cte-many-record-types", format: "cte", timing: true, maxN: 1 << 12, perByte: 64 << 10, build: func(n int, _ []byte) []byte {
+			var b strings.Builder
+			b.WriteString("c0\n")
+			for i := 0; i < n; i++ {
+				fmt.Fprintf(&b, "@r%d<1>\n", i)
+			}
+			b.WriteString("1")
+			return []byte(b.String())
+		}},
+		{name: "cte-many-remote-refs", format: "cte", timing: true, maxN: 1 << 13, build: func(n int, _ []byte) []byte {
+			return []byte("c0\n[" + rep("$\"http://x.y/z\" ", n) + "]")
+		}},
+		{name: "cte-bit-array", format: "cte", timing: true, maxN: 1 << 17, build: func(n int, _ []byte) []byte {
+			return []byte("c0\n@b[" + rep("1 0 ", n) + "]")
+		}},
+		{name: "cte-uid-array", format: "cte", timing: true, maxN: 1 << 13, build: func(n int, _ []byte) []byte {
+			return []byte("c0\n@uid[" + rep("f81d4fae-7dec-11d0-a765-00a0c91e6bf6 ", n) + "]")
+		}},
+		// --- more CBE kinds
+		{name: "cbe-many-records", format: "cbe", timing: true, maxN: 1 << 17, build: func(n int, _ []byte) []byte {
+			return cbeDoc([]byte{0x7f, 0xf1, 0x01, 'r', 0x01, 0x02, 0x9b, 0x9a}, repB([]byte{0x96, 0x01, 'r', 0x01, 0x02, 0x9b}, n), []byte{0x9b})
+		}},
+		{name: "cbe-many-edges", format: "cbe", timing: true, maxN: 1 << 17, build: func(n int, _ []byte) []byte {
+			return cbeDoc([]byte{0x9a}, repB([]byte{0x97, 0x01, 0x02, 0x03, 0x9b}, n), []byte{0x9b})
+		}},
+		{name: "cbe-many-times", format: "cbe", timing: true, maxN: 1 << 17, build: func(n int, _ []byte) []byte {
+			tv := compact_time.NewTimestamp(2020, 1, 15, 10, 30, 0, 500000000, compact_time.TZAtAreaLocation("Europe/Berlin"))
+			buf := make([]byte, tv.EncodedSize()+1)
+			buf[0] = 0x7c
+			k := tv.EncodeToBytes(buf[1:])
+			return cbeDoc([]byte{0x9a}, repB(buf[:k+1], n), []byte{0x9b})
+		}},
+		{name: "cbe-many-uids", format: "cbe", timing: true, maxN: 1 << 17, build: func(n int, _ []byte) []byte {
+			return cbeDoc([]byte{0x9a}, repB(append([]byte{0x65}, make([]byte, 16)...), n), []byte{0x9b})
+		}},
+		{name: "cbe-many-floats", format: "cbe", timing: true, maxN: 1 << 18, build: func(n int, _ []byte) []byte {
+			return cbeDoc([]byte{0x9a}, repB([]byte{0x70, 0xc0, 0x3f, 0x71, 0, 0, 0xc0, 0x3f, 0x76, 0x06, 0x0f}, n), []byte{0x9b})
+		}},
+		{name: "cbe-many-media", format: "cbe", timing: true, maxN: 1 << 16, build: func(n int, _ []byte) []byte {
+			return cbeDoc([]byte{0x9a}, repB([]byte{0x7f, 0xf3, 0x03, 'a', '/', 'b', 0x04, 1, 2}, n), []byte{0x9b})
+		}},
+		{name: "cbe-many-custom", format: "cbe", timing: true, maxN: 1 << 17, build: func(n int, _ []byte) []byte {
+			return cbeDoc([]byte{0x9a}, repB([]byte{0x92, 0x05, 0x04, 1, 2}, n), []byte{0x9b})
+		}},
+		{name: "cbe-many-short-typed-arrays", format: "cbe", timing: true, maxN: 1 << 17, build: func(n int, _ []byte) []byte {
+			return cbeDoc([]byte{0x9a}, repB([]byte{0x7f, 0x22, 1, 0, 2, 0, 0x7f, 0x13, 1, 2, 3}, n), []byte{0x9b})
 		}},
 		{name: "cte-record-many-values", format: "cte", timing: true, maxN: 1 << 14, build: func(n int, _ []byte) []byte {
 			var b strings.Builder
@@ -663,12 +766,16 @@ func init() {
 				ctx.Hung = true
 				return fmt.Errorf("decoding a %d-byte document of family %s did not finish within the deadline", len(doc), c.Family)
 			}
-			bound := uint64(c08Base) + uint64(c08PerByte[f.format])*uint64(len(doc)) + 4*uint64(c.MaxArray)
+			perByte := c08PerByte[f.format]
+			if f.perByte > 0 {
+				perByte = f.perByte
+			}
+			bound := uint64(c08Base) + uint64(perByte)*uint64(len(doc)) + 4*uint64(c.MaxArray)
 			ctx.Stats.Count("alloc_bytes_total", int64(alloc))
 			ctx.Stats.Count("doc_bytes_total", int64(len(doc)))
 			if alloc > bound {
 				return fmt.Errorf("family %s (%s): a %d-byte document made the decoder allocate %d bytes; bound = %d + %d*len + 4*MaxArraySizeBytes(%d) = %d\ndoc=%s",
-					c.Family, c.Pipeline, len(doc), alloc, c08Base, c08PerByte[f.format], c.MaxArray, bound, docdump(f.format, doc[:min(len(doc), 64)]))
+					c.Family, c.Pipeline, len(doc), alloc, c08Base, perByte, c.MaxArray, bound, docdump(f.format, doc[:min(len(doc), 64)]))
 			}
 			return nil
 		},
